@@ -419,12 +419,32 @@ def dir_heavy_session(rng, conf, nfiles=14, fill=None):
         else:
             lines += ["read %d 50" % h]
         lines += ["drop_file %d" % h]
-        if rng.chance(1, 5):
-            lines += ["remove 0 %s" % hexs("deep/" + names[(i + 3) % len(names)])] if False else []
     lines += ["drop_all", "unmount", "mount 1 0 lossy", "list 0", "open_dir 0 %s 2" % hexs("deep"), "list 2"]
     for nm in names:
         h += 1
         lines += ["open_file 2 %s %d" % (hexs(nm), h), "read_all %d 100000" % h, "extents %d" % h, "drop_file %d" % h]
+    # last phase: every entry leaves the directory again - removed, moved to the root, or renamed inside the directory to a name
+    # of another slot count - in a shuffled order: entries whose slots straddle two NON-adjacent clusters are freed slot by slot,
+    # the neighbours (and whatever lies physically in front of the second cluster) must stay as they are
+    lines += ["drop_all"]
+    order = list(range(len(names))); rng.shuffle(order)
+    for n_, i in enumerate(order):
+        k = rng.below(4)
+        path = "deep/" + names[i]
+        if k <= 1:
+            lines += ["remove 0 %s" % hexs(path)]
+        elif k == 2:
+            lines += ["rename 0 %s 0 %s" % (hexs(path), hexs("moved out %02d" % i + "y" * rng.choice([0, 3, 14, 27])))]
+        else:
+            lines += ["rename 0 %s 0 %s" % (hexs(path), hexs("deep/renamed %02d" % i + "z" * rng.choice([0, 2, 15, 30])))]
+        if n_ % 3 == 2:
+            lines += ["open_dir 0 %s 3" % hexs("deep"), "list 3", "drop_dir 3"]
+    lines += ["list 0", "open_dir 0 %s 4" % hexs("deep"), "list 4", "drop_all", "unmount", "mount 1 0 lossy", "list 0",
+              "open_dir 0 %s 5" % hexs("deep"), "list 5"]
+    for i in range(len(names)):
+        if rng.chance(1, 2):
+            h += 1
+            lines += ["open_file 0 %s %d" % (hexs("frag%02d.bin" % i), h), "read_all %d 100000" % h, "drop_file %d" % h]
     lines += ["drop_all", "unmount"]
     return head + lines
 
